@@ -85,6 +85,7 @@ type PathState struct {
 	fs        *FSModel
 	routes    []route
 	overrides map[string]Value
+	lockMonitor string
 }
 
 func newPathState(prefix []int32) *PathState {
@@ -257,6 +258,8 @@ func (vm *VM) runPath(entry *ssa.Function, prefix []int32) {
 			switch e := r.(type) {
 			case *pathEnd:
 				reason = e.reason
+			case *blockedSignal:
+				reason = "blocked: " + e.what
 			case *goPanic:
 				reason = "uncaught-panic"
 				vm.recordViolation("uncaught-panic", e.String(), tTrue)
@@ -462,8 +465,7 @@ func (vm *VM) choose(n int) int {
 		return 0
 	}
 	if vm.cfg.Concrete != nil {
-		v := vm.nextConcrete("choice")
-		return int(v.Int)
+		panic(vm.fail("unlogged choice during concrete replay"))
 	}
 	conds := make([]*Term, n)
 	for i := range conds {
